@@ -199,6 +199,7 @@ structure RState where
   rowGroups : List RGMeta           -- remaining
   bufs : List ColBuf
   err : Bool := false
+  fieldsSet : Bool := false         -- `p.fields` is only assigned when a row group is loaded
 
 def pathName (p : List Bytes) : Bytes := ([46] : Bytes).intercalate p    -- strings.Join(path, ".")
 
@@ -222,7 +223,7 @@ def RState.readRowGroup (st : RState) : R RState :=
   match st.rowGroups with
   | [] => .ok { st with rgCursor := 0, rgCount := 0 }
   | rg :: rest =>
-    let st := { st with bufs := List.replicate st.cols.length {}, rgCount := rg.numRows, rgCursor := 0 }
+    let st := { st with bufs := List.replicate st.cols.length {}, rgCount := rg.numRows, rgCursor := 0, fieldsSet := true }
     let rec go (chs : List ChunkMeta) (st : RState) : R RState :=
       match chs with
       | [] => .ok st
